@@ -50,17 +50,18 @@ def run_bin(cases, level, tag):
 
 
 def same_behaviour(r0, rk):
-    """r = (exit class, program stdout, stderr).  None = behaviours differ."""
+    """r = (exit class, program stdout or None when the run never started, stderr)."""
     c0, o0, e0 = r0
     ck, ok_, ek = rk
-    if o0 is None or ok_ is None:
-        return c0 == ck and e0.split("[error]")[0] == ek.split("[error]")[0]
     if c0 == "timeout" or ck == "timeout":
-        return o0.startswith(ok_) or ok_.startswith(o0)
+        return (o0 or "").startswith(ok_ or "") or (ok_ or "").startswith(o0 or "")
     enc0 = "[error] utf-8 encoding error" in e0
     if enc0:
-        # same kind of error; text written before may be withheld
-        return ck == c0 and "[error] utf-8 encoding error" in ek and o0.startswith(ok_) and e0.split("[error]")[0].startswith(ek.split("[error]")[0])
+        # same kind of error; text written before it may be withheld (also entirely, when optimisation itself hits the error)
+        return (ck == c0 and "[error] utf-8 encoding error" in ek and (o0 or "").startswith(ok_ or "")
+                and e0.split("[error]")[0].startswith(ek.split("[error]")[0]))
+    if o0 is None or ok_ is None:
+        return c0 == ck and o0 == ok_ and e0.split("[error]")[0] == ek.split("[error]")[0]
     return ck == c0 and ok_ == o0 and ek == e0
 
 
